@@ -143,10 +143,16 @@ class C06(CoreProp):
         "listed deviations (KNOWN_FINDINGS.txt) are reported as KNOWN-FINDING, not judged as violations",
     ]
     not_yet_proved = [
-        "segment (show_toks ts) = Some (map seg_of_tok (lexed ts)) for ALL compiled programs (the byte-level lexer model of Tmpl/Lexer.v "
-        "agrees with the token-level trimming of Tmpl/IR.v on every emitted template): proved for all static trees (C06_static_partial, "
-        "C06_static_in_context) and for a quoted text followed by anything (C06_text_adjacent*); for programs with control constructs "
-        "it is checked by the judge on the engine's own emitted template text of every case (lexer_seam_ok)",
+        "the lexer seam segment (show_toks ts) = Some (map seg_of_tok (lexed ts)) is now a THEOREM for every compiled program of the domain "
+        "node_dom, all node kinds, production and debug mode (C06_lexer_seam_partial = C06_compile_wf, by induction over the compiler "
+        "incl. all of jexpr, followed by C06_lexer_seam_wf, for all well-formed token lists); outside that domain it is FALSE "
+        "(C06_lexer_seam_refuted, four witnesses): a buffered string literal ending in '{' followed by an action (F-C06-f, a defect of "
+        "the code: `= \"a{\"` then `= p` emits a{{{$p | __pug__html}} and the engine fails to load), a template literal with a double "
+        "quote in a literal part (unterminated quoted string at load; literal parts with a backslash or line feed are excluded from "
+        "node_dom as well, without a witness of their own), an element name ending in '{' with attributes (outside the pug grammar) "
+        "and a float literal whose text is not a number (artefact of the model's JNumF). Not "
+        "proved: that the bytes INSIDE an action parse to the `act` its token carries (Tmpl/Lexer.v models only where an action ends; "
+        "DESIGN section 8) -- compared per case through the engine's output and emitted text (lexer_seam_ok)",
         "C06_trim_only_ws at the level of the rendered OUTPUT (render_prod p related to the ideal concatenation by white space at text "
         "edges, through the executor, for all mixed programs): proved are the relation trims_rel for ALL token lists "
         "(C06_lexer_trims_only_ws), the shape theorem that only control actions carry markers for ALL programs (C06_trim_only_ws) and "
